@@ -41,13 +41,16 @@ fn connect_pkt(ver: Ver, persistent: bool) -> Pkt {
         props: if ver == Ver::V5 && persistent { vec![p_u32(P_SEI, 50)] } else { vec![] },
     }
 }
+fn connack_with(ver: Ver, sei: Option<u32>) -> Pkt {
+    Pkt::Connack { ver, sp: false, code: 0, props: sei.map(|v| vec![p_u32(P_SEI, v)]).unwrap_or_default() }
+}
 fn connack_pkt(ver: Ver) -> Pkt {
     Pkt::Connack { ver, sp: false, code: 0, props: vec![] }
 }
 
 /// bring a fresh object to (status, persistent, offline); returns log of the prefix
 fn build_state(role: Role, idw: usize, lver: LVer, as_client: bool, st: Status, persistent: bool, offline: bool) -> Option<(Box<dyn Conn>, Vec<String>)> {
-    build_state_p(role, idw, lver, as_client, st, persistent, offline, false).map(|(c, l, _)| (c, l))
+    build_state_p(role, idw, lver, as_client, st, persistent, offline, false, None).map(|(c, l, _)| (c, l))
 }
 /// ids the priming leaves behind: inbound QoS 2 (handled), inbound QoS 1, own stored QoS 1, own QoS 2 with PUBREL stored
 #[derive(Clone, Copy, Debug, PartialEq)]
@@ -63,8 +66,14 @@ struct PrimedIds {
 /// refused call could disturb: a handled inbound QoS 2 id, an unacknowledged inbound QoS 1 id, a stored own
 /// QoS 1 PUBLISH and a stored own PUBREL. Only meaningful when that state survives into `st` (st == Cd, or persistent).
 #[allow(clippy::too_many_arguments)]
-fn build_state_p(role: Role, idw: usize, lver: LVer, as_client: bool, st: Status, persistent: bool, offline: bool, primed: bool) -> Option<(Box<dyn Conn>, Vec<String>, Option<PrimedIds>)> {
+/// `connack_sei`: the CONNACK of the (last completed) handshake carries this Session Expiry Interval, which overrides what
+/// the CONNECT asked for (v5.0 only; states whose handshake has no CONNACK yet are not built)
+#[allow(clippy::too_many_arguments)]
+fn build_state_p(role: Role, idw: usize, lver: LVer, as_client: bool, st: Status, persistent: bool, offline: bool, primed: bool, connack_sei: Option<u32>) -> Option<(Box<dyn Conn>, Vec<String>, Option<PrimedIds>)> {
     if primed && !(st == Status::Cd || persistent) {
+        return None;
+    }
+    if connack_sei.is_some() && (lver != LVer::V5 || (st == Status::D && !persistent && connack_sei == Some(0))) {
         return None;
     }
     if primed && lver.to_ver().is_none() {
@@ -103,12 +112,12 @@ fn build_state_p(role: Role, idw: usize, lver: LVer, as_client: bool, st: Status
         if as_client {
             send(c, &connect_pkt(ver, persistent), log)?;
             if upto_connected {
-                feed(c, &connack_pkt(ver), log)?;
+                feed(c, &connack_with(ver, connack_sei), log)?;
             }
         } else {
             feed(c, &connect_pkt(ver, persistent), log)?;
             if upto_connected {
-                send(c, &connack_pkt(ver), log)?;
+                send(c, &connack_with(ver, connack_sei), log)?;
             }
         }
         Some(())
@@ -134,7 +143,7 @@ fn build_state_p(role: Role, idw: usize, lver: LVer, as_client: bool, st: Status
     };
     match st {
         Status::D => {
-            if persistent {
+            if persistent || connack_sei.is_some() {
                 // the last session was persistent
                 handshake(&mut c, true, &mut log)?;
                 if primed {
@@ -144,6 +153,10 @@ fn build_state_p(role: Role, idw: usize, lver: LVer, as_client: bool, st: Status
             }
         }
         Status::Cg => {
+            if connack_sei.is_some() {
+                // (the override of an earlier connection must not leak into the next handshake: this one asks anew)
+                return None;
+            }
             if primed {
                 handshake(&mut c, true, &mut log)?;
                 ids = Some(prime(&mut c, &mut log)?);
@@ -341,6 +354,12 @@ pub fn run_c11(ctx: &Ctx) -> Report {
                                         cell(&mut rep, role, as_client, lver, st, persistent, offline, idw, k, ver, qos, Via::Dynamic, false, true, false);
                                     }
                                 }
+                                // the CONNACK overrides the session expiry the CONNECT asked for
+                                if ver == Ver::V5 && lver == LVer::V5 && (k == Kind::Pubrel || (k == Kind::Publish && qos > 0)) {
+                                    for sei in [0u32, 50] {
+                                        cell_sei(&mut rep, role, as_client, lver, st, persistent, offline, idw, k, ver, qos, Via::Dynamic, false, false, false, Some(sei));
+                                    }
+                                }
                                 // a second packet on an id that already carries a stored exchange
                                 if k == Kind::Pubrel || (k == Kind::Publish && qos > 0) {
                                     cell(&mut rep, role, as_client, lver, st, persistent, offline, idw, k, ver, qos, Via::Dynamic, true, false, true);
@@ -377,13 +396,22 @@ pub fn run_c11(ctx: &Ctx) -> Report {
 
 #[allow(clippy::too_many_arguments)]
 fn cell(rep: &mut Report, role: Role, as_client: bool, lver: LVer, st: Status, persistent: bool, offline: bool, idw: usize, k: Kind, ver: Ver, qos: u8, via: Via, primed: bool, neg: bool, dup: bool) {
-    let Some((mut c, log, pids)) = build_state_p(role, idw, lver, as_client, st, persistent, offline, primed) else { return };
-    let Some((mut twin, _, pids2)) = build_state_p(role, idw, lver, as_client, st, persistent, offline, primed) else { return };
+    cell_sei(rep, role, as_client, lver, st, persistent, offline, idw, k, ver, qos, via, primed, neg, dup, None)
+}
+#[allow(clippy::too_many_arguments)]
+fn cell_sei(rep: &mut Report, role: Role, as_client: bool, lver: LVer, st: Status, persistent: bool, offline: bool, idw: usize, k: Kind, ver: Ver, qos: u8, via: Via, primed: bool, neg: bool, dup: bool, connack_sei: Option<u32>) {
+    let Some((mut c, log, pids)) = build_state_p(role, idw, lver, as_client, st, persistent, offline, primed, connack_sei) else { return };
+    let Some((mut twin, _, pids2)) = build_state_p(role, idw, lver, as_client, st, persistent, offline, primed, connack_sei) else { return };
+    // the CONNACK has the last word on whether the session outlives the connection
+    let persistent = match connack_sei {
+        Some(v) => v != 0,
+        None => persistent,
+    };
     if pids != pids2 {
         rep.violate(fail("C11", "harness", "prime".into(), format!("priming differs between twins {:?} {:?}", pids, pids2), json!({})));
         return;
     }
-    let name = format!("role={:?}/{} conn={:?} status={:?} persistent={} offline={} idw={} packet={:?}{:?}{}{} via={:?}{}", role, if as_client { "client-path" } else { "server-path" }, lver, st, persistent, offline, idw, k, ver, if k == Kind::Publish { format!("q{}", qos) } else { String::new() }, if neg { "(failure code)" } else { "" }, via, if dup { " primed, id of a stored exchange" } else if primed { " primed" } else { "" });
+    let name = format!("role={:?}/{} conn={:?} status={:?} persistent={} offline={} idw={} packet={:?}{:?}{}{} via={:?}{}", role, if as_client { "client-path" } else { "server-path" }, lver, st, persistent, offline, idw, k, ver, if k == Kind::Publish { format!("q{}", qos) } else { String::new() }, if neg { "(failure code)" } else { "" }, via, if dup { " primed, id of a stored exchange" } else if primed { " primed" } else { "" }.to_string() + &connack_sei.map(|v| format!(" CONNACK(SessionExpiryInterval={})", v)).unwrap_or_default());
     rep.evaluations += 1;
     rep.distinct_case(name.as_bytes());
     // ids of ours come from acquire so that no cell is refused for an unrelated reason
@@ -679,14 +707,18 @@ pub fn run_c17(ctx: &Ctx) -> Report {
     // Undetermined server: first packet
     for role in [Role::Server, Role::Any] {
         for idw in [2usize, 4] {
-            for level in [3u8, 4, 5, 6] {
+            // every value of the protocol-level byte, in a CONNECT body of either layout
+            for (level, body_ver) in (0u16..=255).flat_map(|l| [(l as u8, Ver::V311), (l as u8, Ver::V5)]) {
+                if (level == 4 && body_ver == Ver::V5) || (level == 5 && body_ver == Ver::V311) {
+                    // (a well-formed level with the other version's body is a malformed CONNECT of the adopted version: H6)
+                    continue;
+                }
                 let mut c = new_conn(role, idw, LVer::Undetermined);
-                let ver = if level == 4 { Ver::V311 } else { Ver::V5 };
-                let mut frame = rc::encode(&connect_pkt(ver, false), idw);
+                let mut frame = rc::encode(&connect_pkt(body_ver, false), idw);
                 frame[8] = level; // fixed header(2) + name(6) -> level byte
                 rep.hit("H3-undetermined-adopts-version-from-first-connect");
                 rep.evaluations += 1;
-                rep.distinct_case(format!("undet {:?} {} {}", role, idw, level).as_bytes());
+                rep.distinct_case(format!("undet {:?} {} {} {:?}", role, idw, level, body_ver).as_bytes());
                 let evs = c.recv(&frame).map(|x| x.0).unwrap_or_default();
                 let adopted = c.version();
                 let want = match level {
@@ -699,12 +731,12 @@ pub fn run_c17(ctx: &Ctx) -> Report {
                     rep.violate(fail("C17", "H3-undetermined-adopts-version-from-first-connect", format!("level={};adopted={:?}", level, adopted), format!("Undetermined {:?} server, CONNECT with protocol level {}: version now {:?}, events {}", role, level, adopted, evs_short(&evs)), json!({})));
                 }
             }
-            for ty in [0u8, 2, 3, 4, 8, 12, 14, 15] {
+            for (ty, fver) in (0u8..16).filter(|t| *t != 1).flat_map(|t| [(t, Ver::V5), (t, Ver::V311)]) {
                 let mut c = new_conn(role, idw, LVer::Undetermined);
-                let frame = minimal_frame(ty, Ver::V5, idw);
+                let frame = minimal_frame(ty, fver, idw);
                 rep.hit("H4-undetermined-rejects-other-first-packet");
                 rep.evaluations += 1;
-                rep.distinct_case(format!("undet-first {:?} {} {}", role, idw, ty).as_bytes());
+                rep.distinct_case(format!("undet-first {:?} {} {} {:?}", role, idw, ty, fver).as_bytes());
                 let evs = c.recv(&frame).map(|x| x.0).unwrap_or_default();
                 if c.version() != LVer::Undetermined || !evs.iter().any(|e| e.is_error()) || evs.iter().any(|e| matches!(e, Ev::Recv { .. } | Ev::Send { .. })) {
                     rep.violate(fail("C17", "H4-undetermined-rejects-other-first-packet", format!("type={}", ty), format!("Undetermined {:?} server, first packet of type {}: version {:?}, events {}", role, ty, c.version(), evs_short(&evs)), json!({})));
@@ -808,8 +840,12 @@ pub fn run_c17(ctx: &Ctx) -> Report {
         sc.connect_first = true;
         let mut sc2 = sc.clone();
         sc2.ver = LVer::from_ver(sc.speak);
-        let a = Driver::new(sc.clone(), seed).run();
-        let b = Driver::new(sc2, seed).run();
+        let mut a = Driver::new(sc.clone(), seed);
+        let mut b = Driver::new(sc2, seed);
+        a.path_flip = false;
+        b.path_flip = false;
+        let a = a.run();
+        let b = b.run();
         rep.evaluations += 1;
         rep.api_calls += a.api_calls + b.api_calls;
         rep.hit("H5-undetermined-trace-equals-fixed-version");
